@@ -1,7 +1,7 @@
 # Helpers shared by the harnesses.  Everything here is polymorphic: it works on proxies (symbolic
 # mode, sym stack) and on plain Python values (concrete mode, sym or real stack).
 from symx.core import (And, Or, Not, Implies, Iff, If, Eq, Sum, Count, Min, Max, SSeq, SInt, SBool,
-                       sdata, slen, sat, seq_eq, code_of, pmod, is_sym, scomp_code, supper_code)
+                       sdata, slen, sat, seq_eq, code_of, pmod, is_sym, scomp_code, supper_code, rc_codes)
 from symx.run import Ob, OutOfDomain
 
 
